@@ -1109,7 +1109,7 @@ func runMaster(c *Ctx) {
 					v = l
 				}
 				// (a column read in the k-th round of an unrolled loop carries the round in its name)
-				got[e.Name] = reGen.ReplaceAllString(v, "")
+				got[e.Name] = reInst.ReplaceAllString(reGen.ReplaceAllString(v, ""), "")
 			}
 		}
 		for f, w := range want {
@@ -1127,7 +1127,7 @@ func runMaster(c *Ctx) {
 		for i, ty := range []string{"string", "string", "string", "int64"} {
 			checked := false
 			for _, l := range lp.Lits {
-				if reGen.ReplaceAllString(l.Subject, "") == fmt.Sprintf("type(%s[const:%d])", rec, i) && l.Op == token.EQL && l.C == ty && l.Val {
+				if reInst.ReplaceAllString(reGen.ReplaceAllString(l.Subject, ""), "") == fmt.Sprintf("type(%s[const:%d])", rec, i) && l.Op == token.EQL && l.C == ty && l.Val {
 					checked = true
 				}
 			}
